@@ -42,7 +42,7 @@ TF = 'chainables.tree_fns'
 
 
 def run(ctx: Ctx):
-  for r in (r9, r1, r2, r3, r4, r5, r6, r7, r8, r10, r11, r12):
+  for r in (r9, r1, r2, r3, r4, r5, r6, r7, r13, r8, r10, r11, r12):
     ctx.guard(r)
 
 
@@ -687,10 +687,37 @@ def r12(ctx: Ctx):
   ctx.floor(rule, 1, n)
 
 
+def r13(ctx: Ctx):
+  rule = 'R-C19-13'
+  ctx.rule(rule, '"emits ... exactly the concatenation of the input rows": the per-column counter of pending rows cannot wrap. The'
+           ' numpy array that `rebatched_args` counts rows in is created with Python\'s `int` (or a 64-bit / pointer-sized'
+           ' integer type) — never a narrower dtype (int8/16/32, unsigned): `+=` on a narrow array wraps silently, a pending'
+           ' total of exactly 65536 rows reads as 0 and both the flush and the final flush are skipped (rows dropped)')
+  fi = ctx.repo.func(IU, 'rebatched_args')
+  n = 0
+  wide = ('int', 'np.int64', 'np.intp', 'np.int_', "'int64'", 'np.longlong')
+  for c in ast.walk(fi.node):
+    if isinstance(c, ast.Call) and unparse(c.func) in ('np.zeros', 'np.array', 'np.asarray', 'np.empty', 'np.full', 'np.zeros_like'):
+      dt = kwarg(c, 'dtype')
+      if dt is None:
+        continue
+      n += 1
+      what = f'rebatched_args: `{unparse(c)[:50]}` counts in a 64-bit integer'
+      if unparse(dt) in wide:
+        ctx.ok(rule, fi, what, c)
+      else:
+        ctx.fail(rule, fi, what,
+                 f'`{unparse(c)[:60]}` counts pending rows in `{unparse(dt)}`: the in-place additions wrap around, pending totals'
+                 ' that are multiples of the type\'s range read as 0 and the rows are never flushed', node=c)
+  ctx.floor(rule, 1, n)
+
+
 from mlmverif.selfcheck import B, OK  # noqa: E402
 
 _F = 'utils/iter_utils.py'
 VARIANTS = [
+    B('pending-row-counter-sixteen-bits', 'utils/iter_utils.py',
+      "  batch_sizes = np.zeros(num_columns, dtype=int)\n  exhausted = False", "  batch_sizes = np.zeros(num_columns, dtype=np.int16)\n  exhausted = False", 'R-C19-13'),
     B('target-size-capped-at-a-queue-constant', 'utils/iter_utils.py',
       "  if not batch_size:\n    yield from tuples\n    return\n", "  if not batch_size:\n    yield from tuples\n    return\n  batch_size = min(batch_size, _MAX_BATCH_SIZE)\n", 'R-C19-12'),
     OK('num-outputs-through-a-local', 'chainables/tree_fns.py',
